@@ -627,6 +627,21 @@ func corpus(e *ev.Env) {
 			}
 		}
 	})
+	// Idle timeouts that are not whole seconds: clearly after the timeout the token must be refused
+	// (what happens before ceil(timeout)+2 s is not judged).
+	e.Corpus("fractional-idle-timeout", func(c *ev.Case) {
+		for _, idle := range []time.Duration{time.Millisecond, 500 * time.Millisecond, 999 * time.Millisecond, 1500 * time.Millisecond, 2500 * time.Millisecond} {
+			for _, be := range []string{bMemory, bVstore, bSessStore, bSessMW} {
+				for _, su := range []bool{false, true} {
+					cfg := fixedCfg(be, "header", su)
+					cfg.idle = idle
+					hs := &histSpec{cfg: cfg, nClients: 1, steps: mkSteps("fetch", "own", "advance-past", "own", "fetch", "fetch", "advance-past", "stale", "own")}
+					_, nt := runHistory(e, c, hs, nil, "")
+					noteHistory(e, hs, nt)
+				}
+			}
+		}
+	})
 	// https + "Origin: null" falls back to the Referer, which must still be judged.
 	e.Corpus("null-origin-cross-referer", func(c *ev.Case) {
 		cfg := originCorpusCfg(smTLS, "example.com")
